@@ -5,6 +5,7 @@ pub mod gen;
 pub mod pools;
 pub mod reduce;
 pub mod malformed;
+pub mod plain;
 
 pub fn fnv(b: &[u8]) -> u64 {
     let mut h: u64 = 0xcbf29ce484222325;
